@@ -47,6 +47,7 @@ try:
         rc = sh("cd /verif && timeout 3000 ./vcheck %s --tier %s" % (c, tier), env=env2)
         keys = sorted(set(re.findall(r"^\s+key=(\S+)", rc.stdout, re.M)))
         out["checks"][c] = {"rc": rc.returncode, "wall_s": round(time.time() - t0, 1), "violation_keys": keys[:12],
+                            "harness_errors": [l[:300] for l in rc.stdout.splitlines() if l.startswith("HARNESS-ERROR")][:5],
                             "tail": rc.stdout.strip().splitlines()[-1][:300] if rc.stdout.strip() else ""}
 finally:
     sh("git -C /repo worktree remove --force %s" % wt)
